@@ -462,6 +462,8 @@ func (fr *frame) exec(instr ssa.Instruction) cont {
 		*p = in.zero(deref(instr.Type()))
 		fr.env[instr] = p
 	case *ssa.MakeSlice:
+		in.guardAlloc(fr.get(instr.Len))
+		in.guardAlloc(fr.get(instr.Cap))
 		n := in.concreteInt(fr.get(instr.Len), "make length")
 		c := in.concreteInt(fr.get(instr.Cap), "make capacity")
 		if n < 0 || c < n {
@@ -1434,4 +1436,27 @@ func (it *symStrIter) next() tuple {
 	i := it.i
 	it.i++
 	return tuple{ts.True, ts.BV(64, uint64(i)), ts.Zext(c, 32)}
+}
+
+// guardAlloc splits off the case of a grossly excessive allocation size before the size is
+// enumerated: a request for more than the engine limit is reported like a run-time panic
+// ("excessive allocation"), which the native replay confirms by measuring allocated bytes.
+func (in *Interp) guardAlloc(v value) {
+	t, ok := v.(*Term)
+	if !ok || t.IsConst() {
+		if ok && t.SVal() > int64(in.cfg.MaxAlloc) {
+			in.lastPanicPos = in.curFrame.pos()
+			panic(goPanic{iface{t: in.P.runtimeErrType(), v: fmt.Sprintf("excessive allocation: %d elements", t.SVal())}})
+		}
+		return
+	}
+	t64 := t
+	if t.w < 64 {
+		t64 = in.ts.Sext(t, 64)
+	}
+	big := in.ts.Cmp(OpSlt, in.ts.BV(64, uint64(in.cfg.MaxAlloc)), t64)
+	if in.branch(big) {
+		in.lastPanicPos = in.curFrame.pos()
+		panic(goPanic{iface{t: in.P.runtimeErrType(), v: "excessive allocation: more than the engine limit of elements requested by a make()"}})
+	}
 }
